@@ -171,6 +171,7 @@ def rule4_leaf(ctx, v):
         kidx = [s for s in kap.steps if s[0] == 'i']
         kphi = f.get(f.strip(kidx[0][1])) if kidx and isinstance(kidx[0][1], str) else None
         okk = kphi is not None and kphi.op == 'phi' and kphi.block.id == lp['header']
+        slot_of_key = None
         if okk:
             vals = [val for val, b in kphi.d['incoming']]
             init = [val for val in vals if same_value(f, val, pidx.get('base'))]
@@ -180,6 +181,15 @@ def rule4_leaf(ctx, v):
                 a = f.get(f.strip(sv)) if isinstance(sv, str) else None
                 if not (a is not None and a.op == 'add' and f.strip(a.ops[0]) == kphi.id and const_int(a.ops[1]) == 1):
                     okk = False
+        if not okk and kidx:
+            # the other spelling: k = base + i with i the slot counter {0,+,1} of the same loop
+            ka_ = lib.affine(f, kidx[0][1])
+            bs = [k for k in ka_ if same_value(f, k, pidx.get('base'))]
+            ph = [k for k in ka_ if k in f.insts and f.insts[k].op == 'phi' and f.insts[k].block.id == lp['header']]
+            okk = len(bs) == 1 and ka_[bs[0]] == 1 and len(ph) == 1 and ka_[ph[0]] == 1 and counter_phi(f, f.insts[ph[0]], 0, 1) and \
+                len([k for k, c in ka_.items() if c != 0]) == 2
+            if okk:
+                slot_of_key = ph[0]
         ctx.ob('C11.4', 'key index is {base,+,1} on every path', okk,
                'the key index advances by one on every iteration, whether or not the key has a destructor (otherwise later '
                'slots are matched with the wrong key)', loc=dl[0].loc, detail=expr_str(f, kidx[0][1]) if kidx else '')
@@ -196,6 +206,9 @@ def rule4_leaf(ctx, v):
                    counter_phi(f, iphi, 0, 1) and any(x.op == 'icmp' and x.pred == 'slt' and const_int(x.ops[1]) == 16 and
                                                       x.block.id == lp['header'] and f.strip(x.ops[0]) == iphi.id for x in f.order),
                    'all 16 slots of the leaf are visited in order', loc=vl[0].loc)
+            if slot_of_key is not None:
+                ctx.ob('C11.4', 'key index is base + the slot index', iphi is not None and slot_of_key == iphi.id,
+                       'key k = base + i is matched with slot i', loc=vl[0].loc)
             ctx.ob('C11.4', 'slot belongs to the node walked', same_value(f, sap.root, pidx.get('n')), 'slots of node n', loc=vl[0].loc)
             clr = [s for s in f.order if s.op == 'store' and f.field(s) == 'myth_tls_entry.value' and
                    isinstance(s.ops[0], dict) and s.ops[0].get('null') and f.ap(s.ops[1]).key() == sap.key()]
